@@ -284,6 +284,7 @@ class Body:
         self._defs = None
         self._edge_dom_cache = {}
         self._mut_cache = None
+        self._mem = None
 
     # -- naming ---------------------------------------------------------------------------------
     def local_name(self, l):
@@ -934,8 +935,10 @@ class Body:
         return self._mut_cache
 
     # -- provenance -----------------------------------------------------------------------------
-    def trace(self, x, path=(), opaque=None, transparent_extra=None, follow_mut=False, _seen=None, _via=()):
-        """Backward value provenance of an operand or place.  Returns a list of Leaf."""
+    def trace(self, x, path=(), opaque=None, transparent_extra=None, follow_mut=False, _seen=None, _via=(), _at=None):
+        """Backward value provenance of an operand or place.  Returns a list of Leaf.
+        `_at` = (block, statement index) of the read, when known: storage that is written through references (a struct
+        updated by `&mut self` helpers) is then read flow-sensitively - only the writes that reach that point count."""
         if _seen is None:
             _seen = set()
         if "l" in x and "p" in x:
@@ -956,9 +959,157 @@ class Body:
             place = op_place(x)
             if place is None:
                 return [Leaf("unknown", x, tuple(path), _via)]
+        if _at is not None:
+            st = self.storage_of(place)
+            if st is not None and st[0] in self.mem_writes:
+                return self._trace_storage(st[0], st[1] + tuple(path), _at, opaque, transparent_extra, follow_mut, _seen, _via)
         l = place["l"]
         path = proj_path(place) + tuple(path)
         return self._trace_local(l, path, opaque, transparent_extra, follow_mut, _seen, _via)
+
+    # -- storage written through references, read flow-sensitively ------------------------------------------
+    def storage_of(self, place):
+        """(base local, path) of the storage a place denotes, looking through references to locals:
+        (*p).f with p = &mut x.g  ->  (x, g.f).  None when a deref does not resolve to a local's storage."""
+        l, proj = place["l"], list(place["p"])
+        for _ in range(12):
+            if not proj or proj[0] != "*":
+                break
+            if 1 <= l <= self.argc:
+                return None
+            ds = [x for x in self.defs.get(l, []) if x.kind != "assign" or not x.node["dst"]["p"]]
+            d = ds[0] if len(ds) == 1 else None
+            if d is None or d.kind != "assign":
+                return None
+            rv = d.node["rv"]
+            if rv["k"] == "ref":
+                l, proj = rv["place"]["l"], list(rv["place"]["p"]) + proj[1:]
+            elif rv["k"] == "use" and op_place(rv["op"]) is not None:
+                q = op_place(rv["op"])
+                l, proj = q["l"], list(q["p"]) + proj
+            else:
+                return None
+        if "*" in proj:
+            return None
+        return l, proj_path({"l": l, "p": proj})
+
+    @property
+    def mem_writes(self):
+        """base local -> {block: [(stmt index, storage path, Def)]} for every local some of whose storage is written through
+        a reference; all writes (direct, through references, call results) are listed."""
+        if self._mem is None:
+            w, through = {}, set()
+            for i in sorted(self.reach):
+                b = self.blocks[i]
+                if b["cleanup"]:
+                    continue
+                for j, st in enumerate(b["stmts"]):
+                    if st["k"] != "assign":
+                        continue
+                    so = self.storage_of(st["dst"])
+                    if so is None:
+                        continue
+                    if "*" in st["dst"]["p"]:
+                        through.add(so[0])
+                    w.setdefault(so[0], {}).setdefault(i, []).append((j, so[1], Def("assign", i, j, st)))
+                t = b["term"]
+                if t and t["k"] == "call":
+                    so = self.storage_of(t["dst"])
+                    if so is not None:
+                        if "*" in t["dst"]["p"]:
+                            through.add(so[0])
+                        w.setdefault(so[0], {}).setdefault(i, []).append((10 ** 9, so[1], Def("call", i, -1, t)))
+            self._mem = {k: v for k, v in w.items() if k in through}
+        return self._mem
+
+    def _reaching_writes(self, base, path, at):
+        """Writes to storage (base, path) that reach the read at `at`; the second result is True when the function entry
+        reaches it without a full overwrite."""
+        ws = self.mem_writes[base]
+        out, entry = [], False
+        if at is None:
+            for b in ws:
+                for (j, wpath, d) in ws[b]:
+                    n = min(len(wpath), len(path))
+                    if wpath[:n] == path[:n]:
+                        out.append((wpath, d))
+            return out, (1 <= base <= self.argc)
+        # candidates: every overlapping write; full overwrites kill.  A candidate counts if some FEASIBLE path (the
+        # exploded graph when path sensitivity is on: an `Err` exit of a helper does not continue into the caller's Ok arm)
+        # leads from it to the read without passing a full overwrite.
+        cands, kills = [], {}
+        for bb_, lst in ws.items():
+            for (j, wpath, d) in lst:
+                n = min(len(wpath), len(path))
+                if wpath[:n] != path[:n]:
+                    continue
+                cands.append((bb_, j, wpath, d))
+                if len(wpath) <= len(path):
+                    kills.setdefault(bb_, []).append(j)
+        for (bb_, j, wpath, d) in cands:
+            if self._mem_reaches(bb_, j, at, kills):
+                out.append((wpath, d))
+        entry = self._mem_reaches(0, -1, at, kills)
+        return out, entry
+
+    def _mem_reaches(self, bw, jw, at, kills):
+        br, ir = at
+        def killed_between(b, lo, hi):
+            return any(lo < k < hi for k in kills.get(b, ()))
+        if bw == br and jw < ir and not killed_between(bw, jw, ir):
+            return True
+        if killed_between(bw, jw, 10 ** 10):
+            return False
+        if self.ps and self._x is not None:
+            order, adj = self._x["order"], self._x["adj"]
+            starts = [i for i, (b, _st) in enumerate(order) if b == bw]
+            nxt = lambda i: [k for (k, _e) in adj[i]]
+            blk = lambda i: order[i][0]
+        else:
+            starts = [bw]
+            nxt = lambda i: [tb for (tb, _l) in self.succ[i]]
+            blk = lambda i: i
+        seen = set()
+        stack = []
+        for i in starts:
+            for k in nxt(i):
+                if k not in seen:
+                    seen.add(k)
+                    stack.append(k)
+        while stack:
+            i = stack.pop()
+            b = blk(i)
+            if b == br and not killed_between(b, -2, ir):
+                return True
+            if kills.get(b):
+                continue
+            for k in nxt(i):
+                if k not in seen:
+                    seen.add(k)
+                    stack.append(k)
+        return False
+
+    def _trace_storage(self, base, path, at, opaque, textra, follow_mut, seen, via):
+        k = ("mem", base, path, at)
+        if k in seen:
+            return []
+        seen.add(k)
+        if len(path) > 16 or len(via) > 64:
+            return [Leaf("unknown", {"l": base, "p": []}, path, via)]
+        ws, entry = self._reaching_writes(base, path, at)
+        out = []
+        if entry:
+            out.append(Leaf("param", base, path, via) if 1 <= base <= self.argc else Leaf("undef", base, path, via))
+        for (wpath, d) in ws:
+            rest = path[len(wpath):] if len(path) >= len(wpath) else ()
+            if d.kind == "assign":
+                out += self._trace_rv(d.node["rv"], rest, d, opaque, textra, follow_mut, seen, via)
+            else:
+                out += self._trace_call(d.bb, d.node, rest, opaque, textra, follow_mut, seen, via)
+        if follow_mut:
+            for (bb, t, ai) in self.mutators.get(base, []):
+                out.append(Leaf("mut", (bb, t, ai), path, via))
+        return out
 
     def _trace_local(self, l, path, opaque, textra, follow_mut, seen, via):
         k = (l, path)
@@ -1042,11 +1193,16 @@ class Body:
 
     def _trace_rv(self, rv, path, d, opaque, textra, follow_mut, seen, via):
         k = rv["k"]
-        rec = lambda x, p, v=via: self.trace(x, p, opaque, textra, follow_mut, seen, v)
+        at = (d.bb, d.idx) if (d is not None and d.kind == "assign") else None
+        rec = lambda x, p, v=via: self.trace(x, p, opaque, textra, follow_mut, seen, v, at)
         if k == "use":
             return rec(rv["op"], path)
         if k == "ref" or k == "rawptr":
-            return rec(rv["place"], path)
+            # the reference may be read at any later point: every write to the storage counts, not just those before the borrow
+            so = self.storage_of(rv["place"])
+            if so is not None and so[0] in self.mem_writes:
+                return self._trace_storage(so[0], so[1] + tuple(path), None, opaque, textra, follow_mut, seen, via)
+            return self.trace(rv["place"], path, opaque, textra, follow_mut, seen, via)
         if k == "cast":
             return rec(rv["op"], path, via + ("cast",))
         if k == "agg":
@@ -1105,7 +1261,7 @@ class Body:
         if fa is not None and fa(t):
             out = []
             for a in t["args"]:
-                out += self.trace(a, (), opaque, textra, follow_mut, seen, via + (short(n),))
+                out += self.trace(a, (), opaque, textra, follow_mut, seen, via + (short(n),), (bb, 10 ** 9))
             return out
         summ = None
         if textra and n in textra:
@@ -1126,7 +1282,7 @@ class Body:
                 if ap is None:      # this part of the result never carries a value
                     continue
                 out += self.trace(t["args"][ai], ap + path[len(rp):], opaque, textra, follow_mut, seen,
-                                  via + (short(n),))
+                                  via + (short(n),), (bb, 10 ** 9))
             # (a query shorter than every rule prefix - the whole value of something the summary only
             #  describes piecewise - is answered with the call itself, below)
         if not matched:
